@@ -9,7 +9,7 @@ Driver commands for C02 (cache protocol).
                           admissibility of every event, wrapper-discipline offenders
 
 Event tokens (blank separated): `S` is_stale · `C:<e1,e2>` clear with exclude · `W:<attr>` cache write ·
-`X:<v>:<t>` content change · `Y` classify · `L` lock · `U` unlock · `K` copy · `O` copyOut · `P` pickle ·
+`X:<v>:<t>` content change · `Y` classify · `R:<t0>` retype by hand · `L` lock · `U` unlock · `K` copy · `O` copyOut · `P` pickle ·
 `E:<view>` enter · `Q:<view>` exit.
 -/
 namespace Navis.Drv.C02
@@ -27,6 +27,9 @@ def parseEv (tok : String) : Option Ev :=
     let v ← v.toNat?; let t ← t.toNat?
     pure (.change v t)
   | ["Y"] => some .classify
+  | ["R", t] => do
+    let t ← t.toNat?
+    pure (.retype t)
   | ["L"] => some .lock
   | ["U"] => some .unlock
   | ["K"] => some .copy
